@@ -36,6 +36,9 @@ type c06Op struct {
 	Kind string  `json:"op"` // create | update | delete
 	Src  string  `json:"src"`
 	V    version `json:"rules,omitempty"`
+	// MetaOnly: the delete notification carries the source meta data only (no version, no name, no rules) - the shape the
+	// file_system and cloud_blob providers send, the content is gone by then; otherwise the complete object (kubernetes)
+	MetaOnly bool `json:"meta_only,omitempty"`
 	// filled while executing
 	Accepted bool   `json:"accepted"`
 	Err      string `json:"error,omitempty"`
@@ -472,7 +475,7 @@ func TestC06(t *testing.T) {
 			case !loaded:
 				op = c06Op{Kind: "create", Src: src, V: genVersion(rng, pool, src, nil)}
 			case rng.IntN(5) == 0:
-				op = c06Op{Kind: "delete", Src: src}
+				op = c06Op{Kind: "delete", Src: src, MetaOnly: (h+step)%2 == 0}
 				gone[src] = cur.clone()
 			default:
 				op = c06Op{Kind: "update", Src: src, V: genVersion(rng, pool, src, cur)}
@@ -493,7 +496,11 @@ func TestC06(t *testing.T) {
 				case "update":
 					err = live.Proc.OnUpdated(toRuleSet(src, op.V, shortIDs))
 				case "delete":
-					err = live.Proc.OnDeleted(toRuleSet(src, nil, shortIDs))
+					if op.MetaOnly {
+						err = live.Proc.OnDeleted(&rconfig.RuleSet{MetaData: rconfig.MetaData{Source: src, ModTime: time.Now()}})
+					} else {
+						err = live.Proc.OnDeleted(toRuleSet(src, nil, shortIDs))
+					}
 				}
 			}()
 			select {
@@ -533,12 +540,22 @@ func TestC06(t *testing.T) {
 					failed = true
 					break
 				}
-			} else if !op.Accepted {
+			} else if !op.Accepted && !op.MetaOnly {
 				r.Violation("legal-change-rejected", "delete of a loaded rule set was rejected: "+op.Err, mk(probeReq{}, "accepted", "rejected", "statement"))
 				failed = true
 				break
 			}
-			if !op.Accepted {
+			if op.Kind == "delete" && op.MetaOnly {
+				r.Count("ops_delete_meta_only", 1)
+			}
+			// a provider's delete notification answered with an error: the source is gone all the same, so the matching is
+			// judged against the versions that still exist (reference and fresh instance below); the error alone is no finding.
+			// The history ends here, the instance may still hold what the model does not.
+			deleteErr := op.Kind == "delete" && !op.Accepted
+			if deleteErr {
+				r.Count("ops_delete_error", 1)
+				delete(state, src)
+			} else if !op.Accepted {
 				r.Count("ops_rejected", 1)
 				for i := range probes {
 					if now[i] != prev[i] {
@@ -584,7 +601,7 @@ func TestC06(t *testing.T) {
 				}
 			}
 			// oracle 2: fresh real instance, at the end and at one intermediate step
-			if !failed && (step == nOps-1 || step == checkAt) {
+			if !failed && (step == nOps-1 || step == checkAt || deleteErr) {
 				for order := 0; order < 2 && !failed; order++ {
 					fresh, err := newRepoApp(withDefault)
 					if err != nil {
@@ -626,6 +643,9 @@ func TestC06(t *testing.T) {
 				}
 			}
 			prev = now
+			if deleteErr {
+				break
+			}
 		}
 		key := core.Hash(hist)
 		r.Distinct(key, changedByUpdDel)
